@@ -36,7 +36,8 @@ API
 EVENT FORMAT (tuples; first entry is the kind)
   ('hook', name, slot, level, iter, stage, sweep, done, prev_done, info)    name in HOOK_NAMES; `info` is a dict
         with time, dt, residual, restart, first, last, block, u0 (id, float value), uend (id, float value or None),
-        time0/dt0 (level 0) and, for post_step, u = per level [node values..., uend]
+        time0/dt0 (level 0), for post_step u = per level [node values..., uend], and for the pre_step of the first
+        step of a block all_dt = [S.dt for all steps of the controller]
         (info is not part of the Coq-compared code); pre_comm/post_comm/pre_run/post_run/... are recorded
         with kind 'aux' and never compared
   ('predict', slot, level) ('sweep', slot, level) ('resid', slot, level, stage) ('endpt', slot, level)
@@ -92,6 +93,7 @@ class _Ctx:
         self.levels = {}     # id(level) -> (step, level_index)
         self.probs = {}
         self.on = False
+        self.controller = None
 
 
 CTX = _Ctx()
@@ -192,7 +194,7 @@ def _val(x):
     if x is None:
         return None
     try:
-        return float(np.asarray(x).ravel()[0])
+        return float(np.real(np.asarray(x).ravel()[0]))
     except Exception:
         return None
 
@@ -213,6 +215,8 @@ class RecordingHook(Hooks):
                 'first': st.first, 'last': st.last, 'block': CTX.block,
                 'u0': (id(L0.u[0]), _val(L0.u[0])), 'uend': (id(L0.uend), _val(L0.uend)),
                 'time0': L0.time, 'dt0': L0.dt}
+        if name == 'pre_step' and st.first and CTX.controller is not None:
+            info['all_dt'] = [S.dt for S in CTX.controller.MS]
         if name == 'post_step':
             info['u'] = [[_val(x) for x in Lx.u] + [_val(Lx.uend)] for Lx in step.levels]
         CTX.events.append(('hook', name, st.slot, level_number, st.iter, st.stage, L.status.sweep,
@@ -368,6 +372,7 @@ def run_scripted(controller, rec, script, t0, Tend, u0=1.0):
     CTX.script = script
     CTX.block = -1
     CTX.levels = rec.levels
+    CTX.controller = controller
     res = Result()
     res.u0_obj = u0_obj
     res.u0_val = _val(u0_obj)
